@@ -233,6 +233,7 @@ type history struct {
 	rng   *rand.Rand
 	notif int
 	seed  int64
+	mode  string
 	pruned bool
 	diverged       bool // node and unpruned twin legitimately differ (a reorg needed pruned bodies)
 	tipBefore      int
@@ -314,7 +315,9 @@ func (h *history) submit(batch []int, midFlushProb float64) {
 	for _, a := range h.n.Audit(h.t, h.nm, h.tj.MaxH, p) {
 		h.mismatch(a[0], a[1])
 	}
-	h.queries()
+	if h.mode != "durable" && h.mode != "ledger" {
+		h.queries()
+	}
 	if h.twin != nil {
 		tcls, _, _ := h.twin.Submit(blocks, nil, 0)
 		tp := h.twin.Project(h.t, h.nm, h.tj.MaxH)
@@ -533,7 +536,7 @@ func TestDriver(t *testing.T) {
 		s := sh[hi%shards]
 		s.trees = append(s.trees, tj)
 		h := &history{t: tr, nm: nm, tj: tj, ti: len(s.trees), n: NewNode(tr.W, true), ids: map[types.BlockID]int{}, subs: map[string]*shadow{},
-			tw: s.tw, res: res, rng: rng, seed: seed}
+			tw: s.tw, res: res, rng: rng, seed: seed, mode: mode}
 		for _, nd := range tr.Nodes {
 			h.ids[nd.Block.ID()] = nd.ID
 		}
